@@ -54,6 +54,33 @@ CLAIMED = {
             "Both comparators are lexicographic total orders equal to the SQL ORDER BY lists and to the memory sort closures; limit "
             "validation dominates data access with equal bounds; pagination arithmetic cannot panic or wrap; pointer update decision "
             "table. Pointer correctness after invalidation is not decided.", "DESIGN.md §4 C18"),
+    "C07": ("symbolic exploration of process_message's dedup step per stored record state (decision table with forking), success-dominance, "
+            "copy-provenance of the failure record and of the snapshot's incumbent, control-dependence of the own-commit shortcut",
+            "Failed / EpochInvalidated records end the call early with no write on every explored path; the dedup lookup dominates all state-"
+            "touching calls; the comparator is irreflexive and compares against the applied commit's own id/timestamp; the pending-commit "
+            "shortcut requires a Commit. MLS-state equality after replays is not decided.", "DESIGN.md §4 C07"),
+    "C08": ("Ok-spine post-dominance (sync after every merge, interprocedural), field-wiring provenance of the sync, routing provenance "
+            "(h tag), index-maintenance rules on the memory backend + schema unique index",
+            "Every merge is followed on every Ok path by the metadata sync; the sync copies each named field from the current MLS state; "
+            "wrappers are tagged with the stored routing id and looked up by it; stale index entries are removed. Equality after every step "
+            "of real histories is not decided.", "DESIGN.md §4 C08"),
+    "C11": ("type-level inventory of interior-mutable state reachable from MDK, hydration-coverage provenance, persisted-mapping tables",
+            "The only volatile state is the snapshot manager's queue; every field the race decision reads is rebuilt from persisted data "
+            "(known finding: the commit timestamp is not). Equivalence of runs with and without restarts is not decided.", "DESIGN.md §4 C11"),
+    "C15": ("who-may-call on TLS decoders (exact / remainder-checked), must-pass-through and error-exit control dependence for the key-package "
+            "and welcome parsers, field wiring of as_raw/from_raw, writer/reader key tables from format templates",
+            "Every external TLS decode is exact; every listed binding check is on all Ok paths / controls an error exit; the extension "
+            "wire mapping is the identity; imeta keys written are parsed. Value round-trip for arbitrary values is not decided.", "DESIGN.md §4 C15"),
+    "C16": ("success-dominance (dedup, preview), decision-table evaluation of the existing-group guard (exactly `state == Active`), "
+            "constant-write tables for accept/decline",
+            "A recorded wrapper id never writes again; records are written only after a successful preview; writes / disabling under the "
+            "sender-chosen group id happen only when the existing record is not Active (known finding: accept_welcome). Joiner/inviter state "
+            "equality is not decided.", "DESIGN.md §4 C16"),
+    "C20": ("who-may-call (snapshot creation), must-pass-through of the retention loop after every queue push, copy-provenance of released "
+            "names, boolean-guard post-dominance of the TTL prune at build()",
+            "Snapshots are created only by the manager; every push is followed under the same guard by the len>retention loop releasing the "
+            "popped entry; rollback releases the split-off suffix by its own names; build() prunes by now-ttl when persistent. Counts over "
+            "real histories are not decided.", "DESIGN.md §4 C20"),
 }
 PENDING_REASON = "check under construction in this round (see DESIGN.md); not yet claimed"
 NA = {}
